@@ -29,6 +29,20 @@ for avail in [0, 1, 4, 5, 6, 8]:
     for chunk in ([1, 2, 5, 8] if avail >= 4 else [8]):
         H.append(dict(name="marshalling.ScalarUnmarshalFrom-avail%d-chunk%d" % (avail, chunk), pkg=MP, files=MF, entry="HarnessScalarUnmarshalFrom", mode="bv", params={"p0": avail, "p1": chunk}, validate=2, unwind=64,
                       functions=["marshalling.ScalarUnmarshalFrom", "io.ReadFull", "io.ReadAtLeast"], bound="stream of %d bytes delivered in chunks of at most %d" % (avail, chunk)))
+BP = "go.dedis.ch/kyber/v4/pairing/bn256."
+H.append(dict(name="bn256.G1.MarshalBinary-roundtrip", pkg="./pairing/bn256", files=["harness/C03/bn_marshal.go"], entry="HarnessBNG1Marshal", mode="bv", unwind=200, no_replay=True,
+              renames={BP + "gfpMul": "c03Mont", "(*" + BP + "curvePoint).IsOnCurve": "c03OnCurve"},
+              stubs=["gfpMul (Montgomery conversion by R^2 / by 1, assembly) -> identity on field elements", "(*curvePoint).IsOnCurve -> true"],
+              functions=["bn256.(*pointG1).MarshalBinary", "bn256.(*pointG1).UnmarshalBinary", "bn256.(*gfP).Marshal", "bn256.(*gfP).Unmarshal", "bn256.(*curvePoint).MakeAffine"],
+              bound="all affine coordinates (2 x 256 bits), and the point at infinity"))
+for mod, size in [(251, 1), (65521, 2), (16777213, 3)]:
+    for bo in [0, 1]:
+        for vl in range(0, size + 1):
+            H.append(dict(name="mod.Int.MarshalBinary-m%d-bo%d-vlen%d" % (mod, bo, vl), pkg="./group/mod", files=["harness/C04/modint.go"], entry="HarnessModIntMarshal", mode="int", params={"p0": mod, "p1": bo, "p2": vl}, validate=3, unwind=64,
+                          stubs=["math/big.Int as mathematical integers; Bytes() with the length determined by the value's interval"],
+                          functions=["mod.(*Int).MarshalBinary", "mod.(*Int).LittleEndian", "mod.(*Int).UnmarshalBinary", "mod.(*Int).MarshalSize"],
+                          bound="modulus %d (%d-byte encoding), byte order %s, all values with exactly %d significant bytes" % (mod, size, ["big", "little"][bo], vl),
+                          tiers=(["quick", "thorough"] if mod != 251 else ["thorough"])))
 for mod in [13, 251]:
     for t, tn in enumerate(["projPoint", "extPoint"]):
         H.append(dict(name="vartime.%s.Equal-m%d" % (tn, mod), pkg="./group/edwards25519vartime", files=["harness/C03/vartime_equal.go"], entry="HarnessVartimeEqual", mode="int", params={"p0": mod, "p1": t}, validate=4,
